@@ -223,6 +223,28 @@ Example C19_example_after_a_raise :
      = [(1, [(CA, VInt 1); (CB, VNull); (CC, VInt 7)]); (2, [(CA, VInt 6); (CB, VNull); (CC, VInt 7)])].
 Proof. vm_compute. split; reflexivity. Qed.
 
+(* expire() and sync() of held instances: no event of their own; expire()
+   drops what a lazy instance held back (the syncUpdate after it writes
+   nothing); an assignment straight after expire() is an ordinary update;
+   sync() is syncUpdate() plus a reload (SQLObjectNotFound once the row is gone) *)
+Definition ex_xg : cfg :=
+  {| lis_e := [(SUpdate, ALog); (SUpdated, APost 1)]; lis_l := [(SUpdated, ALog)] |}.
+Definition ex_xops : list op :=
+  [OCreate KEager [(CA, VInt 1)]; OExpire KEager 1; OAssign KEager 1 CA (VInt 5);
+   OCreate KLazy [(CA, VInt 2)]; OAssign KLazy 1 CA (VInt 9); OExpire KLazy 1; OSync KLazy 1;
+   OAssign KLazy 1 CC (VInt 4); OSyncFull KLazy 1; ODestroy KEager 1; OSyncFull KEager 1].
+Example C19_example_expire_sync :
+  map (fun r => (r_out r, r_tr r)) (skipn 1 (run ex_xg init ex_xops))
+  = [(Done, []);
+     (Done, [ESig SUpdate KEager (Some 1) [(CA, VInt 5)] 0; EWrite (WUpdate KEager 1 [(CA, VInt 5)]);
+             ESig SUpdated KEager (Some 1) [] 1; EPost SUpdated 1 KEager 1]);
+     (Done, [EWrite (WInsert KLazy 1 [(CA, VInt 2); (CB, VNull); (CC, VInt 7)])]);
+     (Done, []); (Done, []); (Done, []); (Done, []);
+     (Done, [EWrite (WUpdate KLazy 1 [(CC, VInt 4)]); ESig SUpdated KLazy (Some 1) [] 0]);
+     (Done, [EWrite (WDelete KEager 1)]);
+     (Exn XNotFound, [])].
+Proof. vm_compute. reflexivity. Qed.
+
 Print Assumptions C19_exactly_once_in_order.
 Print Assumptions C19_log_is_concat_of_spec.
 Print Assumptions C19_each_listener_once.
